@@ -20,6 +20,13 @@ CLAIMED = {
  "C06": ("E1", "Every state reached by the exploration (program, configuration, width) is formatted a second time with the same configuration and must be a fixpoint, byte for byte.", NOTE, TECH + ", second transition must be a self-loop", "6/C06"),
  "C07": ("E1", "Every transition runs under catch_unwind with a wall-clock bound; outcome must be Ok for text the parser accepts and ParseError for text it rejects; panics, other errors, false successes and blow-ups are violations.", NOTE, TECH + ", outcome oracle on valid and invalid inputs", "6/C07"),
 }
+E2TECH = "bounded exhaustive exploration of the real binary (every element of a finite space of directory trees x argument vectors x environments is executed in a fresh scratch tree and compared with a reference model; expected bytes come from the library in-process)"
+E2NOTE = "runs as root in a scratch directory under the system temp dir with HOME / XDG_CONFIG_HOME redirected and no configuration file above the scratch root (checked); the reference models are written from the README and the property statements; 'unreadable' is exercised through invalid UTF-8, 'unwritable' through the immutable attribute; genuine defects of the unchanged tree are listed by exact scenario in known_findings/<id>.json"
+CLAIMED.update({
+ "C13": ("E2", "Every multiset of <= 3 (thorough: 4) files over {formatted, unformatted, unparseable, invalid UTF-8, missing path} x layout {explicit arguments in every rotation, `.`, sub-directory} x 4 output formats x --verify x --num-threads {1,4}, in --check mode: tree snapshot (bytes, mtime, inode, mode, listing) unchanged; exit status 2 / 1 / 0 by the rule; the number of files reported as differing equals the number that differ; JSON lines parse.", E2NOTE, E2TECH + "; fault kinds enumerated", "6/C13"),
+ "C14": ("E2", "Every ORDERED list of <= 3 (thorough: 4) files over {unformatted, formatted, unparseable, verify-failing, crashing, invalid UTF-8, immutable} (verify-failing and crashing through the cfg-guarded fault injector) x layouts x --verify x --num-threads {1,4} in write mode: healthy files end up as the library output, every failing file keeps its bytes, formatted files keep inode and mtime, nothing is created, exit status 2 iff any failure.", E2NOTE, E2TECH + "; fault enumeration through the injector hook", "6/C14"),
+ "C18": ("E2", "Every file of <= 3 lines over a 9-shape line alphabet and <= 4 lines over its first four shapes (thorough: <= 5 lines over 9 shapes), paired with its real formatting, x 4 output formats: the checker's own unified-diff applier (validating hunk headers against bodies) and JSON-mismatch applier must reconstruct the library output; summary lists exactly the differing file; no diff iff already formatted; exit status matches.", E2NOTE, E2TECH + "; own diff appliers as oracle", "6/C18"),
+})
 NOT_YET = "check under construction in this session (engine designed in DESIGN.md, not yet registered)"
 def main():
     checks = []
@@ -50,6 +57,7 @@ def main():
         },
         "engines": [
             {"name": "E1", "path": "/verif/mc", "serves_properties": [p for p in CLAIMED if CLAIMED[p][0] == "E1"], "kind_free_text": E1},
+            {"name": "E2", "path": "/verif/mc/src/cli.rs", "serves_properties": [p for p in CLAIMED if CLAIMED[p][0] == "E2"], "kind_free_text": "E2 explorer of the real stylua binary (built from /repo with hooks on) against reference models"},
         ],
         "checks": checks,
         "notes": "See DESIGN.md. Known findings: /verif/known_findings/<id>.json (read-only for the checks). Seeded changes: /verif/seeded/.",
